@@ -41,6 +41,24 @@ BUILT = {
             'differ. Exhaustive over the catalogue, sampled beyond it.',
             'Trusts CPython numeric semantics as the reference; shift/exponent magnitudes bounded.',
             'DESIGN.md 3/C20'),
+    'C03': ('grammar-directed independent ZINC writer with hypothesis-drawn spelling plans; differential oracle: hszinc.parse vs the denoted model',
+            'A model grid is rendered by a writer that shares no code with hszinc under a per-token spelling plan (blanks '
+            'around commas, empty cells, digit separators/exponents/leading zeros, INF/-INF/NaN, every named and \\uXXXX escape '
+            'raw or escaped per character, T/t Z/z, 0-6 fraction digits, zone name or not, trailing commas and blanks in '
+            'lists/dicts, bare marker tags), LF/CRLF, with/without final newline, 0-3 grids, str or bytes in seven charsets, '
+            'single flag; hszinc.parse must return exactly the denoted grids. Every document is first cross-checked by the '
+            'independent reader. A deterministic table crosses catalogue values x uniform plans x positions.',
+            'Well-formedness is defined by the harness\'s transcription of the grammar (DESIGN.md Appendix A); only constructs '
+            'the transcription is certain of are emitted.',
+            'DESIGN.md 3/C03'),
+    'C04': ('hypothesis-generated model grids + catalogue; hszinc.dump output judged by an independent spec-derived ZINC reader',
+            'The text produced by hszinc.dump / dump_scalar for grids over the C01 domain is parsed by a hand-written '
+            'recursive-descent reader of the pinned ZINC grammar (no hszinc, no pyparsing) that is strict about header form, '
+            'row arity, legal escapes, raw control characters, INF/-INF/NaN, digit syntax, tag names and version gating of '
+            'constructs; it must accept the text and recover the model.',
+            'Conformance is judged against the harness\'s transcription of the grammar; uncertain constructs are accepted, so '
+            'some non-conformances can slip through but none are invented. URIs without C0 controls.',
+            'DESIGN.md 3/C04'),
     'C14': ('exhaustive small-scope enumeration of operation histories + hypothesis histories, lock-step with a Python list model',
             'Every history of up to 4 (quick) / 5 (thorough) operations over a 27-op alphabet (append, insert, extend, +=, item '
             'assignment, del by index and slice, pop, remove, reverse, clear, continue-on-slice, refused non-dict rows and '
